@@ -278,7 +278,7 @@ def check(prop, tier):
     only = os.environ.get("VERIF_ONLY")  # development aid: substring filter on obligation names
     if only:
         obs = [o for o in obs if any(t in o.name for t in only.split(","))]
-    known = [k for k in load_known() if k["property"] == prop]
+    known = [k for k in load_known() if k["property"] == prop or (isinstance(k["property"], list) and prop in k["property"])]
     active = {k["id"]: k for k in known if k.get("status", "open") == "open"}
 
     # ---- known-finding witnesses (concrete, against the real code)
@@ -302,6 +302,15 @@ def check(prop, tier):
     # ---- pre-flight: every witness satisfies the pre (incl. KF exclusions) and the body is True
     ob_pres = {}
     jobs = []
+    act = repr(tuple(sorted(active)))
+    for o in obs:
+        if getattr(o, "body", None):
+            o.body = o.body.replace("{ACTIVE}", act)
+    skipped = [o for o in obs if any(k in active for k in getattr(o, "skip_kf", []))]
+    obs = [o for o in obs if o not in skipped]
+    H._skipped = skipped
+    for o in skipped:
+        print("  %-34s excluded (whole cell is known finding %s)" % (o.name, [k for k in o.skip_kf if k in active]))
     chobs = [o for o in obs if o.kind != "Z"]
     for ob in chobs:
         pres = list(ob.pre) + ["not (%s)" % pred for kid, pred in ob.kf if kid in active]
@@ -433,6 +442,7 @@ def write_evidence(prop, tier, seed, H, obs, results, t0, kf_lines, violations=0
             "functions_encoded": funcs,
             "solver_time_s": round(sum(r.get("solver_s", 0.0) for r in results), 1),
             "known_findings_reported": kf_lines,
+            "obligations_excluded_by_known_finding": [o.name for o in getattr(H, "_skipped", [])],
             "exhaustive": False,
             "explanation": "bounded symbolic model checking; verdicts are relative to the bounds listed per obligation",
         },
